@@ -77,6 +77,7 @@ def _alphabet() -> Dict[str, Dict[str, Any]]:
        lambda h, m, i: ((h.transpose(1, 2), g(m, "k", i)), {"padding": 1}), ["self.k{i} = nn.Parameter(torch.randn(D, D, 3))"],
        post=lambda y: y.transpose(1, 2))
     op("gate_softmax", "gate_softmax", "{h} * F.softmax({h}, dim=-1)", lambda h, m, i: ((h,), {}))
+    op("hand_scaled", "hand_scaled", "U.scale_fwd(U.scale_bwd({h}, 0.5) * 2.0, 0.25)", lambda h, m, i: ((h,), {}))
     op("custom_gelu", "custom_gelu", "custom_gelu({h})", lambda h, m, i: ((h,), {}))
     # ---- unmapped ops
     op("tanh", "torch.tanh", "torch.tanh({h})", lambda h, m, i: ((h,), {}))
@@ -107,7 +108,7 @@ SINKS = ["sum", "mse", "cross_entropy", "tensor", "two_outputs"]
 
 
 def n_instr(items: List[Any]) -> int:
-    return sum(1 if it[0] == "op" else 1 + n_instr(it[1]) for it in items)
+    return sum(1 if it[0] == "op" else (1 + n_instr(it[1]) + (n_instr(it[2]) if it[0] == "par" else 0)) for it in items)
 
 
 def keys_of(items: List[Any]) -> List[str]:
@@ -115,9 +116,19 @@ def keys_of(items: List[Any]) -> List[str]:
     for it in items:
         if it[0] == "op":
             out.append(it[1])
+        elif it[0] == "par":
+            out += keys_of(it[1]) + keys_of(it[2])
         else:
             out += keys_of(it[1])
     return out
+
+
+def contains_res(it: Any) -> bool:
+    if it[0] == "res":
+        return True
+    if it[0] == "par":
+        return any(contains_res(x) for x in it[1] + it[2])
+    return False
 
 
 # --------------------------------------------------------------------------- emitter
@@ -148,6 +159,13 @@ def emit_source(prog: Dict[str, Any]) -> str:
                 else:
                     body.append(f"{ind}{nh} = " + e["expr"].format(h=h, i=i))
                 h = nh
+            elif it[0] == "par":
+                # two towers computed from the same tensor, merged by a PLAIN add (a DAG, not a chain)
+                a = go(it[1], h, ind)
+                b = go(it[2], h, ind)
+                nh = fresh("p")
+                body.append(f"{ind}{nh} = {a} + {b}")
+                h = nh
             else:
                 _, inner, order = it
                 skip = h
@@ -171,6 +189,10 @@ def emit_source(prog: Dict[str, Any]) -> str:
         sig, h0 = "ids", "self.emb(ids) + self.pos(torch.arange(S))"
     body.append(f"        h0 = {h0}")
     last = go(prog["items"], "h0", "        ")
+    if prog.get("out_name"):
+        # TorchDynamo names graph nodes after local variables: e.g. a variable called `output`
+        body.append(f"        {prog['out_name']} = {last} * 1.0")
+        last = prog["out_name"]
     sink = prog.get("sink", "sum")
     extra_sig = ""
     if sink == "sum":
@@ -224,8 +246,8 @@ def build(prog: Dict[str, Any], seed: int = 0) -> Tuple[Any, str]:
         m = nn.Sequential(*list(m.children()))
     elif prog.get("root") == "bare":
         (m,) = list(m.children())
-    if prog.get("dtype", "float32") == "float64":
-        m = m.double()
+    if prog.get("dtype", "float32") != "float32":
+        m = m.to(getattr(torch, prog["dtype"]))
     return m, src
 
 
@@ -233,9 +255,9 @@ def inputs(prog: Dict[str, Any], seed: int = 0) -> Tuple[Any, ...]:
     import torch
 
     g = torch.Generator().manual_seed(77 + seed)
-    dt = torch.float64 if prog.get("dtype", "float32") == "float64" else torch.float32
+    dt = getattr(torch, prog.get("dtype", "float32"))
     if prog.get("first", "x") == "x":
-        x = torch.randn(B, S, D, generator=g, dtype=dt)
+        x = torch.randn(B, S, D, generator=g, dtype=torch.float64).to(dt)
         if prog.get("x_zeros"):
             x[:, ::2, ::3] = 0.0
         first: Any = x
@@ -243,7 +265,7 @@ def inputs(prog: Dict[str, Any], seed: int = 0) -> Tuple[Any, ...]:
         first = torch.randint(0, V, (B, S), generator=g)
     sink = prog.get("sink", "sum")
     if sink == "mse":
-        return (first, torch.randn(B, S, D, generator=g, dtype=dt))
+        return (first, torch.randn(B, S, D, generator=g, dtype=torch.float64).to(dt))
     if sink == "cross_entropy":
         return (first, torch.randint(0, D, (B * S,), generator=g))
     return (first,)
@@ -265,6 +287,7 @@ class Semantics:
             "F.conv1d": F.conv1d, "torch.tanh": torch.tanh, "F.relu": F.relu, "F.embedding": F.embedding,
             "F.mse_loss": F.mse_loss, "F.cross_entropy": F.cross_entropy, "custom_gelu": F.gelu,
             "gate_softmax": lambda h: h * F.softmax(h, dim=-1),
+            "hand_scaled": lambda h: U.scale_fwd(U.scale_bwd(h, 0.5) * 2.0, 0.25),
             "mul": lambda a, b: a * b, "neg": lambda a: -a,
             "reshape": lambda h: h.reshape(B, S, 2, D // 2).reshape(B, S, D),
             "view_t": lambda h: h.transpose(0, 1).contiguous().transpose(0, 1),
@@ -319,14 +342,14 @@ class Interp:
         prog, sem, m = self.prog, self.sem, self.m
         counter = itertools.count()
         items = prog["items"]
-        total_top = len(items)
-        last_res_top = max([j for j, it in enumerate(items) if it[0] == "res"], default=-1)
+        any_res = any(contains_res(it) for it in items)
+        last_res_top = 0 if any_res else -1
 
-        def go(items: List[Any], h: Any, ctx: Dict[str, Any]) -> Any:
+        def go(items: List[Any], h: Any, ctx: Dict[str, Any], cont_res: bool) -> Any:
+            """cont_res: some residual add AFTER this sequence depends on it (data flow)"""
             for j, it in enumerate(items):
-                c = dict(ctx)
-                if ctx["depth"] == 0:
-                    c["after_last_residual"] = j > last_res_top
+                later = cont_res or any(contains_res(x) for x in items[j + 1:])
+                c = dict(ctx, after_last_residual=not later)
                 if it[0] == "op":
                     e = ALPHABET[it[1]]
                     i = next(counter)
@@ -339,10 +362,15 @@ class Interp:
                         if e.get("post"):
                             h = e["post"](h)
                     h = sem.observe(f"v{i}", h, c)
+                elif it[0] == "par":
+                    a = go(it[1], h, dict(c, depth=ctx["depth"] + 1), later)
+                    b = go(it[2], h, dict(c, depth=ctx["depth"] + 1), later)
+                    next(counter)
+                    h = sem.add(a, b, dict(c, key="par"))
                 else:
                     _, inner, order = it
                     c2 = dict(c, depth=ctx["depth"] + 1, after_last_residual=False, branch_keys=keys_of(inner))
-                    h = sem.residual(h, lambda r, inner=inner, c2=c2: go(inner, r, c2), order, c2)
+                    h = sem.residual(h, lambda r, inner=inner, c2=c2: go(inner, r, c2, True), order, c2)
                     next(counter)
             return h
 
@@ -360,7 +388,9 @@ class Interp:
             b = sem.call("F.embedding", (torch.arange(S), m.pos.weight), {}, dict(ctx0, key="pos", after_last_residual=last_res_top < 0))
             h = sem.add(a, b, dict(ctx0, key="emb+pos", after_last_residual=last_res_top < 0))
         h = sem.observe("h0", h, ctx0)
-        h = go(items, h, ctx0)
+        h = go(items, h, ctx0, False)
+        if prog.get("out_name"):
+            h = h * 1.0
         end = dict(ctx0, after_last_residual=True, key="sink")
         sink = prog.get("sink", "sum")
         if sink == "sum":
